@@ -221,7 +221,17 @@ def invert_scan_lines(F, S):
     good = len(neg) == 1 and ((neg[0].get("op") == "*=" and fn.term(fn.kids(neg[0]["id"])[1]) == ("const", -1)) or
                               (neg[0].get("op") == "=" and fn.term(fn.kids(neg[0]["id"])[1]) == ("un", "-", ("mem", ("mem", ("this",), "imageHeader"), "height"))))
     if good:
-        out.append(ok("R-SIB", inst, fn.loc(neg[0]["id"]), fn.qn, "the height is negated exactly once", fmt_term(fn.term(neg[0]["id"]))))
+        from ..through import on_every_returning_path
+        loops = [l for l in fn.nodes if l["k"] in ("ForStmt", "WhileStmt", "DoStmt", "CXXForRangeStmt") and neg[0]["id"] in fn.subtree(l["id"])]
+        if loops:
+            good = False
+            out.append(bad("R-SIB", inst, fn.loc(neg[0]["id"]), fn.qn, "the height is negated exactly once", "the negation sits inside a loop"))
+        elif not on_every_returning_path(fn, [neg[0]["id"]]):
+            good = False
+            out.append(bad("R-SIB", inst, fn.loc(neg[0]["id"]), fn.qn, "the height is negated exactly once on every flip",
+                           "a returning path (an early return) skips the negation: such a flip leaves the height sign unchanged"))
+        else:
+            out.append(ok("R-SIB", inst, fn.loc(neg[0]["id"]), fn.qn, "the height is negated exactly once", fmt_term(fn.term(neg[0]["id"])) + ", on every returning path"))
     else:
         out.append(bad("R-SIB", inst, fn.loc(fn.body), fn.qn, "the height is negated exactly once", "%d stores to height" % len(neg)))
     out += unsigned_subtractions(F, S, fn)
